@@ -25,10 +25,13 @@ def main():
             c = mc.run_check(prop, "quick")
             out[n] = {"property": prop, "exit": c["exit"], "signatures": c["signatures"][:3], "wall_s": c["wall_s"]}
             print(n, prop, "exit", c["exit"], c["wall_s"], "s", flush=True)
+            # written after every seed, so that an interrupted run leaves what it has
+            json.dump({"at": time.strftime("%Y-%m-%d %H:%M:%S"), "complete": False, "seeds_total": len(names), "results": out},
+                      open(os.path.join(mc.ROOT, "seeded", "REGRESSION.json"), "w"), indent=1)
     finally:
         mc.teardown()
     p = os.path.join(mc.ROOT, "seeded", "REGRESSION.json")
-    json.dump({"at": time.strftime("%Y-%m-%d %H:%M:%S"), "results": out}, open(p, "w"), indent=1)
+    json.dump({"at": time.strftime("%Y-%m-%d %H:%M:%S"), "complete": True, "seeds_total": len(names), "results": out}, open(p, "w"), indent=1)
     missed = [n for n, v in out.items() if v.get("exit") != 1]
     print("seeds:", len(out), "not caught:", missed)
     return 0
